@@ -18,7 +18,7 @@ CLAIMED = {
   technique="static analysis: outcome dataflow + path exploration over go/cfg, who-may-call table, comparison-shape agreement",
   ref="§4 C04"),
  "C05": dict(
-  text="Structural clauses of the distributed read path: every decode site of a coordinator *Response with an Err field surfaces a non-nil Err as a non-nil error on every path; retry loops and fan-outs return success only after every call of the round returned nil and mark failing nodes dirty before re-partitioning; per-iteration analysis of the shard-assignment loops shows each shard is appended to exactly one node bucket (or the mapping aborts); the already-mapped guard tests the map the loop fills; a failed framed exchange on a pooled connection is followed by MarkUnusable on every path; the value-type dispatch of the remote iterator path is exhaustive.",
+  text="Structural clauses of the distributed read path: every decode site of a coordinator *Response with an Err field surfaces a non-nil Err as a non-nil error on every path; retry loops and fan-outs return success only after every call of the round returned nil and mark failing nodes dirty before re-partitioning; per-iteration analysis of the shard-assignment loops shows each shard is appended to exactly one node bucket (or the mapping aborts); the already-mapped guard tests the map the loop fills; a failed framed exchange on a pooled connection is followed by MarkUnusable on every path; the value-type dispatch of the remote iterator path is exhaustive; a handler that streams a query iterator writes to the connection when streaming fails, before the connection closes (the reader takes a clean end of the connection for end of data).",
   note="Does not decide liveness of owners, equality of the merged result with a single-node result, or truncated streams. The skip of a shard with an empty owner list is exempted on the grounds that the metadata never publishes a live shard without owners (C06 invariant).",
   technique="static analysis: per-site nil/outcome dataflow, loop-iteration path counting, type-switch exhaustiveness",
   ref="§4 C05"),
@@ -88,7 +88,7 @@ CLAIMED = {
   technique="static analysis: path exploration with outcome facts, attribute-set comparison between first-block test and per-block loop, struct-field coverage of re-initialisation, definition provenance",
   ref="§9 C09"),
  "C11": dict(
-  text="Structural clauses of query determinism: points streamed between nodes keep every attribute (for the five point types encode<T>Point reads every struct field, decode<T>Point sets every field, and the stream decoder delivers the whole struct or a covering field-wise copy); for each of the ten storage-cursor merge functions next<T> the behaviour on every weak ordering of (cache key, file key, EOF) equals the merge table (both exhausted / equal keys: cache value and both advance / cache first in the cursor's direction / file first); ascending and descending code is mirror-symmetric wherever both are written out (if/else arms on opt.Ascending, '&&' alternatives over the same operands, ascending/descending cursor siblings): same comparisons with < and > exchanged.",
+  text="Structural clauses of query determinism: points streamed between nodes keep every attribute (for the five point types encode<T>Point reads every struct field, decode<T>Point sets every field, and the stream decoder delivers the whole struct or a covering field-wise copy; the option/interval/varref/measurement/stats codecs restore exactly the fields they read and read exactly the wire fields they set); for each of the ten storage-cursor merge functions next<T> the behaviour on every weak ordering of (cache key, file key, EOF) equals the merge table (both exhausted / equal keys: cache value and both advance / cache first in the cursor's direction / file first); ascending and descending code is mirror-symmetric wherever both are written out (if/else arms on opt.Ascending, '&&' alternatives over the same operands, ascending/descending cursor siblings): same comparisons with < and > exchanged.",
   note="Does not decide window arithmetic, fill values, aggregate functions, limit/offset, or equality of multi-shard/multi-node results with a single-shard evaluation.",
   technique="static analysis: struct-field coverage of codecs, marked path exploration + exhaustive evaluation of compiled path conditions over all weak orderings, comparison-sequence mirror agreement",
   ref="§9 C11"),
@@ -98,7 +98,7 @@ CLAIMED = {
   technique="static analysis: must-precede and outcome facts, path avoidance between scan and flush, paired set operations per branch, definition provenance, path exploration with condition facts",
   ref="§9 C14"),
  "C18": dict(
-  text="Structural clauses of backup/restore/shard copy: the copy-shard handler's work closure returns nil only after backupRemoteShard, CreateShard and RestoreShard returned nil, the success response is sent only when the closure returned nil, Client.CopyShard returns the response's Err, and the meta handler adds the owner only after rpcClient.CopyShard returned nil; Engine.CreateSnapshot links files only after the forced WriteSnapshot succeeded or failed with ErrSnapshotInProgress while the caller allowed skipping the cache; the time-bounded export's block test equals 'block overlaps [start,end]' and its two file tests together equal 'file overlaps the window' on every ordering of their operands (under min<=max, start<=end); Engine.overlay installs uploaded files only after the archive was read to io.EOF and aborts on any other read error; Backup/Export remove nothing but the temporary snapshot directory.",
+  text="Structural clauses of backup/restore/shard copy: the copy-shard handler's work closure returns nil only after backupRemoteShard, CreateShard and RestoreShard returned nil, the success response is sent only when the closure returned nil, Client.CopyShard returns the response's Err, and the meta handler adds the owner only after rpcClient.CopyShard returned nil; Engine.CreateSnapshot links files only after the forced WriteSnapshot succeeded or failed with ErrSnapshotInProgress while the caller allowed skipping the cache; the time-bounded export's block test equals 'block overlaps [start,end]' and its two file tests together equal 'file overlaps the window' on every ordering of their operands (under min<=max, start<=end); Engine.overlay installs uploaded files only after the archive was read to io.EOF and aborts on any other read error; Backup/Export remove nothing but the temporary snapshot directory; every coordinator connection handler (20) writes to the connection when its work closure failed (sibling agreement), and pkg/tar.Stream writes the end-of-archive marker only after a complete walk.",
   note="Does not decide equality of reads on the restored shard, tar framing or hard-link semantics. Observed and not covered by a rule: the time-bounded export fails (with an error) for a TSM file that has a tombstone file.",
   technique="static analysis: outcome facts and path exploration, predicate compilation + exhaustive evaluation over weak orderings, definition provenance",
   ref="§9 C18"),
